@@ -467,3 +467,7 @@ _app("C12", "; after every switch operation the child runs an HS256 and an ES256
 
 # ---------------------------------------------------------------- addition of round 16
 _app("C07", "; documents that do not parse and whose offending token, quoted back in the parser's error text, holds printf conversions (%s, %n, %d, %x)")
+
+# ---------------------------------------------------------------- additions of round 17
+_app("C02", "; on the callback routes every second case hands the context over once more on its own (setcb(obj, NULL, ctx)): the callback must still be in place")
+_app("C04", "; the expected values are \"a\", the empty string and a long non-ASCII one")
